@@ -159,6 +159,15 @@ type bundle struct {
 	kde                                    *stats.KDE
 	kdeB                                   *stats.KDE
 	kde0                                   *stats.KDE // Bandwidth 0: used through private struct copies only
+	swz                                    stats.Sample // weighted with zero weights inside and at the end
+	// results returned by the library when the bundle was built and only
+	// queried afterwards (by many callers at once in the concurrent stages)
+	rDom  *graphalg.DomTree
+	rSub  []graph.Subgraph
+	rSCC  *graphalg.SCCGraph
+	rSimp graph.Weighted
+	lx    []float64 // sorted xs for the shared LOESS fit on all n points
+	loessN func(float64) float64
 	ebacks                                 [][]graph.Edge
 	attrTab                                []graphout.DotAttr // shared table: callbacks return sub-slices with spare capacity
 	lh                                     *stats.LinearHist
@@ -317,10 +326,17 @@ func newBundle(seed uint64) *bundle {
 	b.grid = b.carveF("grid", rng, []float64{-3, 0.5, 2, -1, 7, 0.5})
 	b.sw = stats.Sample{Xs: b.carveF("Sample(weighted).Xs", rng, vals(n, true)), Weights: b.carveF("Sample(weighted).Weights", rng, w)}
 	b.su = stats.Sample{Xs: b.carveF("Sample(unweighted).Xs", rng, vals(n, false))}
+	wz := make([]float64, n)
+	for i := range wz {
+		wz[i] = float64(rng.Intn(5)) // zeros inside
+	}
+	wz[n-1] = 0 // and at the end
+	wz[rng.Intn(n-1)] = 2
+	b.swz = stats.Sample{Xs: b.carveF("Sample(zero weights).Xs", rng, vals(n, true)), Weights: b.carveF("Sample(zero weights).Weights", rng, wz)}
 	kx := b.carveF("KDE.Sample.Xs", rng, vals(n, false))
 	b.kde = &stats.KDE{Sample: stats.Sample{Xs: kx}, Kernel: stats.KDEKernel(rng.Intn(2)), Bandwidth: rng.Uniform(0.5, 20)}
 	lo, hi := stats.Bounds(kx)
-	b.kdeB = &stats.KDE{Sample: stats.Sample{Xs: kx, Weights: b.carveF("KDE.Sample.Weights", rng, w)}, Kernel: stats.GaussianKernel, Bandwidth: rng.Uniform(0.5, 20),
+	b.kdeB = &stats.KDE{Sample: stats.Sample{Xs: kx, Weights: b.carveF("KDE.Sample.Weights", rng, wz)}, Kernel: stats.GaussianKernel, Bandwidth: rng.Uniform(0.5, 20),
 		BoundaryMin: lo - 1, BoundaryMax: hi + 2}
 	// a KDE whose Bandwidth is still 0 (the lazily filled field is a
 	// documented in-place operation, so callers work on private struct copies;
@@ -448,6 +464,19 @@ func newBundle(seed uint64) *bundle {
 	b.loess = fit.LOESS(b.grid[:5], b.ys[:5], 1, 0.9)
 	b.pr = fit.PolynomialRegression(b.grid, b.ys[:len(b.grid)], nil, 2)
 	b.vsqrt = vec.Vectorize(math.Sqrt)
+	lx := append([]float64(nil), b.xs...)
+	sort.Float64s(lx)
+	for i := 1; i < len(lx); i++ { // strictly increasing abscissae
+		if lx[i] <= lx[i-1] {
+			lx[i] = lx[i-1] + 0.125
+		}
+	}
+	b.lx = b.carveF("sorted xs (LOESS)", rng, lx)
+	b.loessN = fit.LOESS(b.lx, b.ys, rng.Intn(3), rng.Uniform(0.3, 0.75))
+	b.rDom = graphalg.Dom(b.idom)
+	b.rSub = []graph.Subgraph{graph.SubgraphKeep(b.g, b.keepNodes, b.keepEdges), graph.SubgraphRemove(b.g, b.rmNodes, b.rmEdges)}
+	b.rSCC = graphalg.SCC(b.g, graphalg.SCCEdges)
+	b.rSimp = graphalg.SimplifyMulti(b.g)
 	b.levels = b.carveF("levels", rng, []float64{0.03, 0.2, 0.41, 0.5, 0.77, 0.9, 0.99, b.y})
 	return b
 }
@@ -691,9 +720,66 @@ var c20Inventory = []entry{
 			e.F(h)
 		}
 	}},
+	{"results returned earlier, queried now (DomTree, Subgraph, SCCGraph, simplified graph, LOESS on all points)", []string{"graphalg.DomTree.Out", "graphalg.DomTree.IDom", "graphalg.SCCGraph.Out", "graphalg.SCCGraph.Subnodes", "fit.LOESS"}, "graphalg", func(b *bundle, e *enc) {
+		n := b.rDom.NumNodes()
+		for _, i := range e.seq(n) {
+			_ = b.rDom.Out(i)
+		}
+		for i := 0; i < n; i++ {
+			e.Is(b.rDom.Out(i))
+			e.Is(b.rDom.In(i))
+			e.I(b.rDom.IDom(i))
+		}
+		for _, s := range b.rSub {
+			e.G(s)
+			nm := s.NodeMap(func(n int) interface{} { return n })
+			for i := 0; i < s.NumNodes(); i++ {
+				e.I(nm(i).(int))
+			}
+		}
+		e.G(b.rSCC)
+		for c := 0; c < b.rSCC.NumNodes(); c++ {
+			e.Is(b.rSCC.Subnodes(c))
+		}
+		for v := 0; v < b.g.NumNodes(); v++ {
+			e.I(b.rSCC.SubnodeComponent(v))
+		}
+		e.G(b.rSimp)
+		for i := 0; i < b.rSimp.NumNodes(); i++ {
+			for k := range b.rSimp.Out(i) {
+				e.F(b.rSimp.OutWeight(i, k))
+			}
+		}
+		lo, hi := b.lx[0], b.lx[len(b.lx)-1]
+		e.each(12, 1, func(i int) []float64 { return []float64{b.loessN(lo + (hi-lo)*float64(i)/11)} })
+	}},
+	{"weighted Sample with zero weights", []string{"stats.Sample.Quantile", "stats.Sample.Bounds", "stats.Sample.Mean"}, "stats", func(b *bundle, e *enc) {
+		s := b.swz
+		e.each(len(b.levels), 1, func(i int) []float64 { return []float64{s.Quantile(b.levels[i])} })
+		l, h := s.Bounds()
+		e.F(l)
+		e.F(h)
+		e.F(s.Mean())
+		e.F(s.Weight())
+		e.F(s.Sum())
+		e.F(s.IQR())
+		c := s.Copy()
+		e.Fs(c.Xs)
+		e.Fs(c.Weights)
+	}},
 	{"KDE with Bandwidth 0 (private struct copies of one shared Sample)", []string{"stats.KDE.PDF", "stats.KDE.CDF", "stats.KDE.Bounds"}, "stats", func(b *bundle, e *enc) {
 		e.each(4, 3, func(i int) []float64 {
 			k := *b.kde0 // the struct is the caller's own; Xs and Weights are shared
+			// only Bandwidth is documented as written lazily: every other
+			// field of the caller's struct must come back as it went in
+			defer func() {
+				t := b.kde0
+				if len(k.Sample.Xs) != len(t.Sample.Xs) || cap(k.Sample.Xs) != cap(t.Sample.Xs) || (len(k.Sample.Xs) > 0 && &k.Sample.Xs[0] != &t.Sample.Xs[0]) ||
+					len(k.Sample.Weights) != len(t.Sample.Weights) || k.Sample.Sorted != t.Sample.Sorted || k.Kernel != t.Kernel ||
+					k.BoundaryMethod != t.BoundaryMethod || k.BoundaryMin != t.BoundaryMin || k.BoundaryMax != t.BoundaryMax {
+					panic("a call on a KDE with Bandwidth 0 changed a field of the caller's struct other than Bandwidth (Sample, Sorted flag, Kernel or boundaries)")
+				}
+			}()
 			switch i {
 			case 0:
 				return []float64{k.PDF(b.x), k.Bandwidth, 0}
